@@ -2,5 +2,6 @@ INIT Init
 NEXT Next
 CONSTANT NR = 1
 CONSTANT NC = 3
+CONSTANT WithBool = FALSE
 INVARIANT TwoStageSoundForAll
 CHECK_DEADLOCK FALSE
